@@ -9,8 +9,8 @@
 #![allow(dead_code, unused_imports)]
 use std::io::{BufRead, Write};
 
-#[path = "/repo/crates/moonbit/src/pkg.rs"]
-mod pkg;
+// `mod pkg` = the working-tree file crates/moonbit/src/pkg.rs of /repo (or of the copy named by VERIF_REPO), see build.rs
+include!(concat!(env!("OUT_DIR"), "/pkg_mod.rs"));
 
 fn hex(s: &str) -> String {
     if s.is_empty() {
